@@ -183,7 +183,42 @@ func liftStream(s []string, lens []int, pat int) (data []byte, cum []int) {
 		}
 	}
 	cum[len(s)] = len(data)
+	// patterns 8 and 9: a digit run of two or more bytes that starts a value becomes a negative number (9: with a
+	// fraction as well) - the sign alone is no value yet, whatever follows it
+	if pat == 8 || pat == 9 {
+		for i := 0; i < len(data); {
+			if data[i] < '1' || data[i] > '9' {
+				i++
+				continue
+			}
+			j := i
+			for j < len(data) && data[j] >= '1' && data[j] <= '9' {
+				j++
+			}
+			// only a run that starts a value: at the start, after white space or after the garbage class
+			startsValue := i == 0 || data[i-1] == ' ' || data[i-1] == '\n' || data[i-1] == '\t' || data[i-1] == '\r'
+			if startsValue && j-i >= 2 && !inString(data, i) {
+				data[i] = '-'
+				if pat == 9 && j-i >= 4 {
+					data[i+2] = '.'
+				}
+			}
+			i = j
+		}
+	}
 	return
+}
+
+// inString: whether offset i of the lifted stream lies between two quotes (the liftings use no escaped quotes
+// in patterns 8 and 9)
+func inString(data []byte, i int) bool {
+	in := false
+	for k := 0; k < i; k++ {
+		if data[k] == '"' {
+			in = !in
+		}
+	}
+	return in
 }
 
 // ---- trace recording through the verif hook
@@ -463,7 +498,7 @@ func c11Vector(c *Ctx, raw stdjson.RawMessage) {
 	tracing := traceSink() && r.intn(100) < tracePct
 	forcePat := -1
 	run := func(lens, sched []int, withE bool, trace bool) {
-		pat := r.intn(8)
+		pat := r.intn(10)
 		if forcePat >= 0 {
 			pat = forcePat
 		}
@@ -485,6 +520,10 @@ func c11Vector(c *Ctx, raw stdjson.RawMessage) {
 	// ... and the same with literals where the lengths fit
 	forcePat = 5
 	run(small, nil, false, false)
+	run(small, []int{1}, true, false)
+	run(small, []int{0, 2, 1, 0, 3}, true, false)
+	// ... and with negative numbers where digit runs are long enough
+	forcePat = 8
 	run(small, []int{1}, true, false)
 	run(small, []int{0, 2, 1, 0, 3}, true, false)
 	forcePat = -1
@@ -521,6 +560,33 @@ func c11Vector(c *Ctx, raw stdjson.RawMessage) {
 			}
 			sched := [][]int{nil, {4096}, {1000, 0, 3096}, {32768}, {5000}, {1, 4095, 8192}}[r.intn(6)]
 			run(lens, sched, r.intn(3) == 0, rep == 0)
+		}
+		// D. a number that starts just before, at and just behind a buffer boundary (its sign, its first digit or its
+		// point is the last byte that has arrived): the stretchable symbol in front of a digit run is the pivot
+		for pv := 0; pv+1 < len(v.S); pv++ {
+			if !ext(pv) || v.S[pv] == "d" || v.S[pv+1] != "d" {
+				continue
+			}
+			for _, delta := range []int{-3, -2, -1, 0} {
+				lens := make([]int, len(v.S))
+				pre := 0
+				for i := range lens {
+					lens[i] = 1
+					if v.S[i] == "d" {
+						lens[i] = 5
+					}
+				}
+				for i := 0; i < pv; i++ {
+					pre += lens[i]
+				}
+				if n := 32768 - pre + delta; n >= 1 {
+					lens[pv] = n
+				}
+				forcePat = 8 + (pv+delta+4)%2
+				run(lens, [][]int{nil, {4096}, {32768}}[(pv+delta+4)%3], delta == -1, false)
+				forcePat = -1
+			}
+			break // one pivot per stream
 		}
 		// C. several large symbols: later buffer boundaries, growth (doubling), values longer than the buffer
 		for rep := 0; rep < big; rep++ {
